@@ -810,6 +810,11 @@ def run(ctx):
         best0 = max([qexact(v) for v in verts if inside(v)], default=None)
         if best0 is not None and qexact(x) < best0 - Fraction(1, 10**12) * (1 + abs(best0)):
             ctx.fail("nelder_mead_below_initial", "returned value below the best vertex of the initial simplex", inp, impl, float(best0))
+        fvals = [qexact(v) for v in np.array(res.final_simplex, dtype=float) if inside(v)]
+        if fvals and max(fvals) > qexact(x) + Fraction(1, 10**12) * (1 + abs(qexact(x))):
+            # observation, not part of C17's statement: after a shrink pass that produces a vertex better than the best one the
+            # order array is no longer sorted (only sort_ind[1:] is re-ranked); see C17_nelder_mead_sorted_refuted
+            ctx.count("nelder_mead:returned-vertex-not-best-of-final-simplex(observation)")
         if res.success and int(res.nit) >= max_iter + 1:
             ctx.fail("nelder_mead_nit", "nit > max_iter", inp, impl, None)
         if res.success and mode in ("free", "inactive", "zero_start") and max_iter >= 1000:
